@@ -728,7 +728,7 @@ def build_unit(unit, outdir, ghost_override=None, variant=None):
                         ob = mskw.rfind("{", off, off + len(wl[i0]) + 1)
                         if ob < 0:
                             raise StopIteration
-                        i1 = whole.count("\n", 0, rustlex.match_brace(mskw, ob))
+                        i1 = whole.count("\n", 0, rustlex.match_brace(mskw, ob)) + more
                     else:
                         i1 = next(k for k, l in enumerate(wl) if k >= i0 and l.strip() == last) + more
                 except (StopIteration, IndexError):
